@@ -642,7 +642,7 @@ var corpus = []string{
 	`@(POWER(1+2, 3))`, `@(SUM(1,2)*3)`, `@(WEEKDAY("2024-01-01")*2)`, `@(CONCATENATE("a","b") = "ab")`, `@(RIGHT("hello", 1+1))`,
 	`@(10 - 2 ^ 2)`, `@(contact.age - 2 ^ 2)`, `@(EXP(1+1))`, `@(3 + SUM(1,2))`, `@(SUM(1,2) + 3)`, `@(2 ^ POWER(2, 3))`, `@(POWER(2,3) ^ 2)`,
 	`@(-POWER(2,2))`, `@(WORD("a b c", 1 = 1))`, `@(contact.x - 2 * 3)`, `@(FIELD("a,b,c", contact.x & "", ","))`, `@(SUM(1, 2 = 2))`,
-	`@(NOW() - ABS(1) * 2)`, `@(1 - -2)`, `@(contact.x - -2)`, `@(-(-2))`, `@(--2)`, `@(2 * SUM(1, 2) * 3)`, `@(CONCATENATE("a", 1 + 2) & SUM(1, 2))`,
+	`@(NOW() - ABS(1) * 2)`, `@(5 - SUM(ABS(1), 2))`, `@(ABS(9) - SUM(MAX(1, 2), 3) - 1)`, `@(1 - -2)`, `@(contact.x - -2)`, `@(-(-2))`, `@(--2)`, `@(2 * SUM(1, 2) * 3)`, `@(CONCATENATE("a", 1 + 2) & SUM(1, 2))`,
 	// F14c and literal forms
 	`@("a\b")`, `@("a""b")`, `@(" "" ")`, `@("")`, `@("""")`, "@(\"a\n\"\"b\")", `@("\D\w+[\.*]")`, `@("a\")`, `@("a\" & "b")`,
 	// arity errors, unknown functions, keywords as function names
@@ -729,7 +729,11 @@ func main() {
 	// the repaired findings must evaluate to the legacy value (fixed values, no reference interpreter needed)
 	for _, c := range [][2]string{{`@(POWER(1+2, 3))`, "27"}, {`@(SUM(1,2)*3)`, "9"}, {`@(CONCATENATE("a","b") = "ab")`, "true"},
 		{`@(RIGHT("hello", 1+1))`, "lo"}, {`@(10 - 2 ^ 2)`, "6"}, {`@(-POWER(2,2))`, "-4"}, {`@(2 ^ POWER(2, 3))`, "256"},
-		{`@(WEEKDAY("2024-01-01")*2)`, "4"}, {`@(2 * SUM(1, 2) * 3)`, "18"}, {`@(SUM(1, 2) - SUM(3, 4))`, "-4"}} {
+		{`@(WEEKDAY("2024-01-01")*2)`, "4"}, {`@(2 * SUM(1, 2) * 3)`, "18"}, {`@(SUM(1, 2) - SUM(3, 4))`, "-4"},
+		{`@(5 - SUM(ABS(1), 2))`, "2"}, {`@(ABS(9) - SUM(MAX(1, 2), 3) - 1)`, "3"},
+		// decremented positions: (a & 0) - 1 differs from a & (0 - 1)
+		{`@(FIELD("a,b,c,d,e,f,g,h,i,j,k", 1 & 0, ","))`, "j"}, {`@(FIELD("a,b,c,d,e,f,g,h,i,j,k", CONCATENATE(1, 0), ","))`, "j"},
+		{`@(WORD("a b c d e f g h i j k", 1 & 0))`, "j"}, {`@(WORD_SLICE("a b c d e f g h i j k l", 1 & 0, CONCATENATE(1, 2)))`, "j k"}} {
 		res.OracleChecks++
 		out, hasErr, _ := migrateReal(c[0], options{})
 		got, evErr := evalMigrated(out, nil)
@@ -842,6 +846,47 @@ func main() {
 			}
 		}
 		res.Notes = append(res.Notes, fmt.Sprintf("value oracle: %d of %d typed trees inside the reference domain", compared, n))
+
+		// numnum: additions and subtractions whose migrated operands are both inferred as numbers (an integer literal or
+		// text starting with abs( max( min( mod( round( ... ): the only case that stays an infix + or -, so the only
+		// place where the right operand needs one level more than the left one.  SUM(ABS(x), y) migrates to
+		// `abs(x) + y`, which is inferred as a number although its outermost operator is +.
+		n = o.Count(150, 5000)
+		rn := r.Fork("numnum")
+		numCall := func(vars []varDecl) *lt {
+			f := hx.Pick(rn, []string{"ABS", "MAX", "MIN", "ROUND", "ROUNDUP", "ROUNDDOWN", "INT", "Abs", "max"})
+			args := []*lt{genTyped(rn, "num", rn.Range(0, 2), vars)}
+			if strings.EqualFold(f, "max") || strings.EqualFold(f, "min") {
+				args = append(args, genTyped(rn, "num", rn.Range(0, 1), vars))
+			}
+			return lCall(f, args...)
+		}
+		numOperand := func(vars []varDecl, d int) *lt {
+			switch rn.Intn(5) {
+			case 0:
+				return lDec(hx.Pick(rn, []string{"1", "5", "12", "100"}))
+			case 1:
+				return numCall(vars)
+			case 2:
+				return lCall("SUM", numCall(vars), genTyped(rn, "num", d, vars))
+			case 3:
+				return mkBin(hx.Pick(rn, []string{"*", "^"}), numCall(vars), lDec(hx.Pick(rn, []string{"2", "3"})))
+			default:
+				return lCall(hx.Pick(rn, []string{"SUM", "sum"}), numCall(vars), genTyped(rn, "num", d, vars), numCall(vars))
+			}
+		}
+		for i := 0; i < n; i++ {
+			vars := genVars(rn)
+			t := mkBin(hx.Pick(rn, []string{"-", "-", "+"}), numOperand(vars, 1), numOperand(vars, 1))
+			if rn.Chance(1, 3) {
+				t = mkBin(hx.Pick(rn, []string{"-", "+", "*"}), t, numOperand(vars, 0))
+			}
+			tc := tcase{Template: "@(" + t.text(nil) + ")"}
+			out, hasErr := runCase(tc, []*lt{t}, true, "numnum")
+			if !hasErr && oracleValue(res, tc, t, vars, out) {
+				res.Dist("numnum:compared")
+			}
+		}
 
 		// literals
 		n = o.Count(600, 30000)
